@@ -156,6 +156,7 @@ func (c *compactCleaner) cleanSegment(seg *segment, keyOffsets *sync.Map, hw int
 			if err := cleaned.WriteMessageSet(ms, entries); err != nil {
 				return nil, removed, err
 			}
+			crashPoint("compact:survivor-written")
 			// Maintain start offset for each new leader epoch.
 			if leaderEpoch > epochCache.LastLeaderEpoch() {
 				if err := epochCache.Assign(leaderEpoch, offset); err != nil {
@@ -227,6 +228,7 @@ func cleanupEmptySegment(new, old *segment) error {
 	if err := new.Delete(); err != nil {
 		return err
 	}
+	crashPoint("compact:empty-cleaned-deleted")
 	// Also delete the old segment since it's been compacted. Set the replaced
 	// flag since this is in the read path.
 	old.Lock()
